@@ -156,6 +156,12 @@ def reconLine (rs : RibSt) (rc : RcSt) (ts : List Tok) : RibSt × RcSt :=
         else if rc.applyOk then (rs.monfail "c15" s!"a second reconciliation still yields {tokStr n} operations", rc)
         else (rs, rc)
       | _ => (bad rs, rc)
+    else if c = "rc.roundtrip" then
+      match args with
+      | [ok, msg] =>
+        if tokStr ok == "1" then (rs.covr "rc.roundtrip", rc)
+        else (rs.monfail "c15" s!"a RIB rebuilt from its own Get responses (the remote target's path) differs from the original: {(strOf msg).getD ""}", rc)
+      | _ => (bad rs, rc)
     else if c = "rc.error" then (rs.monfail "c15" "Reconcile returned an error", rc)
     else (bad rs, rc)
 
